@@ -2,6 +2,7 @@ package driver
 
 import (
 	"context"
+	"errors"
 	"fmt"
 	"io"
 	"sync"
@@ -9,6 +10,7 @@ import (
 
 	"github.com/avos-io/goat"
 	"google.golang.org/grpc"
+	"google.golang.org/grpc/codes"
 	"google.golang.org/grpc/metadata"
 	"google.golang.org/grpc/status"
 	"google.golang.org/protobuf/types/known/wrapperspb"
@@ -64,6 +66,22 @@ func errFields(e *Ev, err error) {
 	} else {
 		e.K = "plain"
 	}
+}
+
+// errClass: "" (nil), "eof", "ctx" (the context's error, raw or as a status), "other"
+func errClass(err error) string {
+	switch {
+	case err == nil:
+		return ""
+	case err == io.EOF:
+		return "eof"
+	case errors.Is(err, context.Canceled), errors.Is(err, context.DeadlineExceeded):
+		return "ctx"
+	}
+	if c := status.Code(err); c == codes.Canceled || c == codes.DeadlineExceeded {
+		return "ctx"
+	}
+	return "other"
 }
 
 func methodOf(kind string) (string, *grpc.StreamDesc) {
@@ -167,6 +185,7 @@ func (cl *call) sendLoop(cs grpc.ClientStream) {
 			if err == io.EOF {
 				r.Res = "eof"
 			}
+			r.X = errClass(err)
 			cl.mu.Lock()
 			cl.pend["send"]--
 			tr.emit(r)
